@@ -50,7 +50,8 @@ theorem wep_spec_roundtrip (key iv : Bytes) (kid : UInt8) (m : Bytes) (hiv : iv.
     byte, any LLC/SNAP payload `m` that parses to `s`) is decrypted to exactly `s` and marked unprotected, for
     every header, once the key is installed under the address `WEPDecrypter` looks up. -/
 theorem wep_roundtrip (ip : InnerParser) (pws : WepPasswords) (h : Hdr) (pw iv : Bytes) (kid : UInt8) (m : Bytes)
-    (s : Snap) (hiv : iv.length = 3) (hkey : lookup pws (wepLookupAddr h) = some pw) (hs : snapParse ip m = .ok s) :
+    (s : Snap) (hw : h.wep = true) (hiv : iv.length = 3) (hkey : lookup pws (wepLookupAddr h) = some pw)
+    (hs : snapParse ip m = .ok s) :
     wepDecrypt ip pws ⟨h, .raw (Spec.wepEncap pw iv kid m)⟩ = .ok (true, ⟨h.clearWep, .snap s⟩) ∧
     h.clearWep.wep = false := by
   refine ⟨?_, clearWep_wep h⟩
@@ -60,7 +61,7 @@ theorem wep_roundtrip (ip : InnerParser) (pws : WepPasswords) (h : Hdr) (pw iv :
     · simp
     · cases hs
   rw [wepDecrypt_eq]
-  simp only [Inner.findRaw, hkey]
+  simp only [Inner.findRaw, hkey, hw, Bool.not_true, Bool.false_eq_true, if_false]
   have hlen : 8 < (Spec.wepEncap pw iv kid m).length := by
     unfold Spec.wepEncap; simp [hiv]; omega
   rw [if_pos hlen, spec_wep_roundtrip pw iv kid m hiv]
@@ -70,9 +71,13 @@ theorem wep_roundtrip (ip : InnerParser) (pws : WepPasswords) (h : Hdr) (pw iv :
     the installed key (the decapsulation succeeds) and the new payload is the parse of exactly that plaintext. -/
 theorem wep_reject (ip : InnerParser) (pws : WepPasswords) (fr fr' : Frame)
     (h : wepDecrypt ip pws fr = .ok (true, fr')) :
-    ∃ pload pw m s, fr.inner.findRaw = some pload ∧ lookup pws (wepLookupAddr fr.hdr) = some pw ∧
+    ∃ pload pw m s, fr.hdr.wep = true ∧ fr.inner.findRaw = some pload ∧ lookup pws (wepLookupAddr fr.hdr) = some pw ∧
       Spec.wepDecap pw pload = some m ∧ snapParse ip m = .ok s ∧ fr' = ⟨fr.hdr.clearWep, .snap s⟩ := by
   rw [wepDecrypt_eq] at h
+  cases hw : fr.hdr.wep with
+  | false => simp [hw] at h
+  | true =>
+  simp only [hw, Bool.not_true, Bool.false_eq_true, if_false] at h
   cases hraw : fr.inner.findRaw with
   | none => simp [hraw] at h
   | some pload =>
@@ -88,7 +93,7 @@ theorem wep_reject (ip : InnerParser) (pws : WepPasswords) (fr fr' : Frame)
           cases hs : snapParse ip m with
           | ok s =>
             simp [hd, snapResult, hs] at h
-            exact ⟨pload, pw, m, s, rfl, rfl, hd, hs, h.symm⟩
+            exact ⟨pload, pw, m, s, rfl, rfl, rfl, hd, hs, h.symm⟩
           | throw e => simp [hd, snapResult, hs] at h
           | fault a b c => simp [hd, snapResult, hs] at h
       · rw [if_neg hn] at h; simp at h
@@ -97,7 +102,12 @@ theorem wep_reject (ip : InnerParser) (pws : WepPasswords) (fr fr' : Frame)
 theorem wep_no_key (ip : InnerParser) (pws : WepPasswords) (fr : Frame)
     (h : lookup pws (wepLookupAddr fr.hdr) = none) : wepDecrypt ip pws fr = .ok (false, fr) := by
   rw [wepDecrypt_eq]
-  cases fr.inner.findRaw <;> simp [h]
+  cases fr.hdr.wep <;> cases fr.inner.findRaw <;> simp [h]
+
+/-- unprotected frames are never touched by `WEPDecrypter::decrypt` -/
+theorem wep_unprotected_untouched (ip : InnerParser) (pws : WepPasswords) (fr : Frame) (h : fr.hdr.wep = false) :
+    wepDecrypt ip pws fr = .ok (false, fr) := by
+  rw [wepDecrypt_eq]; simp [h]
 
 /-- **Safety.** For every frame, every password table and every inner parser, `WEPDecrypter::decrypt` performs no
     out-of-bounds access and throws nothing: it returns. -/
